@@ -116,7 +116,7 @@ theorem primBody_fresh_renders (info : FieldInfo) (k : PrimK) (obj : GoVal) (x :
     rcases hx with rfl | ⟨s, rfl⟩
     · refine ⟨.prim k false true k.zeroSc, ?_, ?_⟩
       · unfold primBody
-        simp only [hk, nullOfTy, hnp, hzv, assignPrim, hn]
+        simp only [hk, primFresh, nullOfTy, hnp, hzv, assignPrim, hn]
         by_cases hpe : info.parentIsOptionalEmbed = true
         · have : parentIsNil info obj = false := by
             cases h2 : parentIsNil info obj
@@ -127,7 +127,7 @@ theorem primBody_fresh_renders (info : FieldInfo) (k : PrimK) (obj : GoVal) (x :
       · simp [primRenders, hn]
     · refine ⟨.prim k false false s, ?_, ?_⟩
       · unfold primBody
-        simp only [hk, nullOfTy, hnp, hzv, assignPrim, hn]
+        simp only [hk, primFresh, nullOfTy, hnp, hzv, assignPrim, hn]
         by_cases hpe : info.parentIsOptionalEmbed = true
         · have : parentIsNil info obj = false := by
             cases h2 : parentIsNil info obj
@@ -143,7 +143,7 @@ theorem primBody_fresh_renders (info : FieldInfo) (k : PrimK) (obj : GoVal) (x :
     · refine ⟨.prim k false false c, ?_, ?_⟩
       · unfold primBody
         have : (info.tf.zeroValue != "") = false := by simp [hzv]
-        simp only [hk, nullOfTy, hnp, this, assignPrim, hn', hc]
+        simp only [hk, primFresh, nullOfTy, hnp, this, assignPrim, hn', hc]
         by_cases hpe : info.parentIsOptionalEmbed = true
         · have : parentIsNil info obj = false := by
             cases h2 : parentIsNil info obj
@@ -156,7 +156,7 @@ theorem primBody_fresh_renders (info : FieldInfo) (k : PrimK) (obj : GoVal) (x :
       refine ⟨.prim k false b c, ?_, ?_⟩
       · unfold primBody
         have hzv' : (info.tf.zeroValue != "") = true := by simpa using hzv
-        simp only [hk, nullOfTy, hnp, hzv', assignPrim, hn', hc, hb, hnil']
+        simp only [hk, primFresh, nullOfTy, hnp, hzv', assignPrim, hn', hc, hb, hnil']
         by_cases hpe : info.parentIsOptionalEmbed = true
         · have : parentIsNil info obj = false := by
             cases h2 : parentIsNil info obj
